@@ -283,6 +283,27 @@ func checkPublish(c *Ctx, rn func(string) string) {
 		}
 	}
 	c.Floor(rn("R3"), "accepted-answer edges in publishTransaction", nAcc, 2)
+	// a failed send keeps the record only for the one answer that means "the backend holds exactly this transaction"
+	// (table of one, confirmed by reading: every other sentinel is a rejection or names a different transaction)
+	nCls := 0
+	for _, b := range pub.Blocks {
+		for si := range b.Succs {
+			s, isTrue, ok := errIsSentinel(b, si)
+			if !ok || !isTrue || !strings.HasPrefix(s, "chain.") {
+				continue
+			}
+			nCls++
+			q := &PathQuery{Fn: pub, Barrier: isRemoval}
+			q.Target = func(ins ssa.Instruction, via *ssa.BasicBlock) bool {
+				r, ok := ins.(*ssa.Return)
+				return ok && p.classifyReturn(r, via) != retError
+			}
+			hits := exploreFromBlock(q, b.Succs[si], b)
+			c.Check(rn("R3"), "kept-after-failed-send-only-when-backend-holds-it:"+strings.TrimPrefix(s, "chain."), lastPos(b), len(hits) == 0 || strings.HasSuffix(s, "ErrTxAlreadyInMempool"),
+				"a broadcast answered with "+s+" is reported as success with the transaction still recorded: that answer does not say the backend holds this transaction, so a rejected transaction keeps its inputs spent and is re-offered after every resync")
+		}
+	}
+	c.Floor(rn("R3"), "sentinel classifications of a failed send", nCls, 3)
 	// the already-known/confirmed classes are sentinel tests too
 	nSent := 0
 	for _, ci := range callsOf(pub) {
